@@ -445,12 +445,31 @@ def returned_names(fnode):
     return [e.id for e in rets[-1].value.elts]
 
 
+def first_stable(m, F):
+    """Once found, final: FIRST_x(m, j) non-empty for a prefix j of the walk => FIRST_x over the whole walk is that text."""
+    j = z3.Int("j!fs")
+    return z3.ForAll([j], z3.Implies(z3.And(j >= 0, j <= M.W_N(m), z3.Length(F(m, j)) > 0), F(m, M.W_N(m)) == F(m, j)), patterns=[F(m, j)])
+
+
+def first_stable_lemmas():
+    """Induction on n >= j (base n == j: reflexivity; step below, from the defining equation at n + 1)."""
+    out = []
+    m, j, n = z3.Const("m!fs", M.MsgS), z3.Int("j!fsl"), z3.Int("n!fsl")
+    for nm, F in (("plain", M.FIRST_P), ("html", M.FIRST_H)):
+        out.append((f"C16/mbox_email_extractor.py::spec/lemma#first-found-{nm}-is-final",
+                    [j >= 0, n >= j, z3.Length(F(m, j)) > 0, F(m, n) == F(m, j), M.first_def(m, n + 1)],
+                    z3.And(F(m, j) == F(m, j), F(m, n + 1) == F(m, j))))
+    return out
+
+
 def body_contract():
     def m_of(c):
         return c.args["message"].t
 
     def hyp(c):
-        return M.first_def(m_of(c), z3.IntVal(0))
+        # FIRST_P / FIRST_H at 0, and their stability (lemma first-found-is-final, proved by induction in lemmas()): a walk that
+        # stops early, once what it looks for is found, has the same result as the full walk
+        return z3.And(M.first_def(m_of(c), z3.IntVal(0)), first_stable(m_of(c), M.FIRST_P), first_stable(m_of(c), M.FIRST_H))
 
     def inv(lc):
         m = lc.entry.lookup("message").t
@@ -956,6 +975,10 @@ def lemmas():
         is_none, val = C07.ft_spec(p)
         out.append((f"C16/router.py::spec/lemma#mime-fallback-routes.{v}", facts_for(c) + [C07.splitext_axioms(z3.StringVal(c.lower()))],
                     z3.And(z3.Not(is_none), val == z3.StringVal(v), z3.BoolVal(v in REG))))
+    try:
+        out.extend(first_stable_lemmas())
+    except Exception:  # noqa  (never let an exception escape from lemmas())
+        pass
     return out
 
 
